@@ -196,6 +196,29 @@ theorem momentum_direction_only (c : Cfg ℝ)
   rw [this]
   exact (finish_dir c f mtbPos _).1
 
+/-- ★ C08.6 the right-hand side of the equation of motion follows the field
+    (`MagFieldEquation::operator()`): the momentum derivative is perpendicular to the momentum —
+    so |p|² is a constant of the exact motion — and perpendicular to the field, for every field
+    value, charge coefficient and state; the position derivative is `make_unit_vector` of the
+    momentum, a vector of norm 1 -/
+theorem lorentz_rhs_follows_field (k : ℝ) (b : Vec3 ℝ) (y : OdeState ℝ) :
+    Vec3.dot y.mom (lorentzRhs k b y).mom = 0 ∧ Vec3.dot b (lorentzRhs k b y).mom = 0 ∧
+    (lorentzRhs k b y).pos = makeUnitVector y.mom ∧
+    (Vec3.dot y.mom y.mom ≠ 0 →
+      Vec3.dot (lorentzRhs k b y).pos (lorentzRhs k b y).pos = 1) := by
+  have hpos : (lorentzRhs k b y).pos = makeUnitVector y.mom := by
+    unfold lorentzRhs makeUnitVector Vec3.norm
+    rfl
+  refine ⟨?_, ?_, hpos, fun h => by rw [hpos]; exact unit_vector_norm _ h⟩
+  · unfold lorentzRhs cross
+    simp only [Vec3R.dot_real, NumR.sqrt_real, NumR.hmul_real, NumR.hdiv_real, NumR.hsub_real,
+      NumR.lit1]
+    ring
+  · unfold lorentzRhs cross
+    simp only [Vec3R.dot_real, NumR.sqrt_real, NumR.hmul_real, NumR.hdiv_real, NumR.hsub_real,
+      NumR.lit1]
+    ring
+
 /-- validated `FieldDriverOptions` give the configuration the loop theorems assume -/
 theorem valid_options_cfgOK (o : Options ℝ) (step : ℝ) (hs : 0 < step) (hv : o.valid = true) :
     CfgOK (o.cfg step) := by
